@@ -173,9 +173,15 @@ def safe_execute(engine, trace):
 
 # --------------------------------------------------------------------------- minimisation
 
+def stop_flag_path():
+    return os.path.join(scratch_root(), "stop-exploring.flag")
+
+
 def _same_class(engine, trace, ops, cls, counter, limit):
     if counter[0] >= limit[0] or time.time() > limit[1]:
         return None
+    if counter[0] > 8 and os.path.exists(stop_flag_path()):
+        return None          # another worker's violation has already been reported: finish this minimisation quickly
     counter[0] += 1
     t = dict(trace)
     t["ops"] = ops
@@ -311,6 +317,8 @@ def _work_chunk(pid, batch_seed, indices, tier, want_digests, per_run_timeout, m
     known = load_known(engine.PID)
     max_min_per_cls = getattr(engine, "MIN_PER_CLS", 3)
     for i in indices:
+        if os.path.exists(stop_flag_path()):
+            break            # the batch already has an unlisted violation; the parent has stopped submitting work
         faulthandler.dump_traceback_later(per_run_timeout, exit=True)
         try:
             trace = make_trace(engine, batch_seed, i, tier)
@@ -346,6 +354,12 @@ def _work_chunk(pid, batch_seed, indices, tier, want_digests, per_run_timeout, m
             if pre is not None and pre in known and pre in out["violations"]:
                 out["violations"][pre]["count"] += 1
                 continue
+            if not (pre is not None and pre in known) and not os.path.exists(stop_flag_path()):
+                # very likely an unlisted violation: tell the other workers to wind down while this one is minimised
+                try:
+                    open(stop_flag_path(), "w").close()
+                except OSError:
+                    pass
             # minimisation is capped per class only once an UNKNOWN signature of that class exists in this chunk
             # (the batch fails anyway); while everything seen is a listed known finding, every violation is minimised
             if min_per_cls[cls] >= max_min_per_cls and unknown_seen[cls]:
@@ -396,6 +410,8 @@ def run_batch(pid, tier, batch_seed, budget_s=None, n_runs=None):
     prepare_lian_imports()
     engine = load_engine(pid)
     cfg = engine.TIERS[tier]
+    if os.path.exists(stop_flag_path()):
+        os.remove(stop_flag_path())
     if n_runs is None:
         n_runs = int(os.environ.get("VERIF_RUNS", 0)) or cfg.get("runs")
     if budget_s is None:
@@ -457,6 +473,8 @@ def run_batch(pid, tier, batch_seed, budget_s=None, n_runs=None):
                 _merge(agg, part)
                 if time.time() < deadline:
                     # stop exploring as soon as a violation that is not a listed known finding has been found
+                    if not all(sig in known for sig in agg["violations"]) and not os.path.exists(stop_flag_path()):
+                        open(stop_flag_path(), "w").close()
                     if all(sig in known for sig in agg["violations"]):
                         f = more()
                         if f is not None:
